@@ -12,6 +12,17 @@ mod verif_search {
     use super::*;
     use std::{collections::BTreeSet, format, string::String, vec::Vec, println};
 
+    /// A panic inside the real code is a failure of the contract too: report it with the operation sequence.
+    fn guarded<F: FnOnce() -> Option<String>>(f: F) -> Option<String> {
+        match std::panic::catch_unwind(std::panic::AssertUnwindSafe(f)) {
+            Ok(r) => r,
+            Err(p) => {
+                let msg = p.downcast_ref::<&str>().map(|s| String::from(*s)).or_else(|| p.downcast_ref::<String>().cloned()).unwrap_or_default();
+                Some(format!("the real code panicked: {msg}"))
+            }
+        }
+    }
+
     #[derive(Clone, Copy, Debug, PartialEq)]
     enum Op { Set(usize, bool), Despawn(usize), Tick }
 
@@ -123,7 +134,7 @@ mod verif_search {
         if let Ok(fixed) = std::env::var("VERIF_OPS") {
             let blacklist = std::env::var("VERIF_POLICY").map(|p| p == "blacklist").unwrap_or(true);
             let ops = parse_ops(&fixed);
-            if let Some(why) = run(blacklist, &ops) {
+            if let Some(why) = guarded(|| run(blacklist, &ops)) {
                 println!("VERIF-COUNTEREXAMPLE policy={} ops={} :: {why}", if blacklist { "blacklist" } else { "whitelist" }, show(&ops));
                 panic!("contract violated on the real code: {why}");
             }
@@ -138,7 +149,7 @@ mod verif_search {
             loop {
                 let seq: Vec<Op> = idx.iter().map(|&k| ops[k]).collect();
                 for blacklist in [true, false] {
-                    if let Some(why) = run(blacklist, &seq) {
+                    if let Some(why) = guarded(|| run(blacklist, &seq)) {
                         println!("VERIF-COUNTEREXAMPLE policy={} ops={} :: {why}", if blacklist { "blacklist" } else { "whitelist" }, show(&seq));
                         panic!("contract violated on the real code: {why}");
                     }
